@@ -122,7 +122,22 @@ func genPager(t *rapid.T) pagerPage {
 		}
 		kinds["prev:"+kind] = true
 		extra = append([]string{`<a href="` + htmlEsc(hrefFor(kind, max(k-1, 0))) + `"` + g.pick("pcls", "", ` class="prev"`, ` rel="prev"`) + `>` +
-			g.pick("plbl", "Prev", "Previous", "«", "newer", "« Prev", "<")+`</a>`}, extra...)
+			g.pick("plbl", "Prev", "Previous", "«", "newer", "« Prev", "<") + `</a>`}, extra...)
+	}
+	// anchors with "extraneous" texts (comments, print, share ...) that point at the same URLs as
+	// pager links: the prev/next finder bans such URLs
+	if g.chance(25, "extraneous") {
+		ne := g.intn(1, 2, "nextr")
+		for i := 0; i < ne; i++ {
+			kinds["extraneous"] = true
+			target := g.intn(max(1, k-1), min(n, k+1), "extrtarget")
+			a := `<a href="` + htmlEsc(hrefFor("link", target)) + `">` + g.pick("extrtxt", "Comments", "Print", "Share", "View all", "Single page", "Reply", "E-mail", "3 comments") + `</a>`
+			if g.chance(50, "extrfirst") {
+				extra = append([]string{a}, extra...)
+			} else {
+				extra = append(extra, a)
+			}
+		}
 	}
 	sep := g.pick("psep", " ", " | ", "\n", " · ", "")
 	wrapper := g.pick("pwrap", "div", "p", "ul", "nav", "span")
@@ -182,4 +197,91 @@ func normTarget(u *nurl.URL) string {
 	v.Scheme = strings.ToLower(v.Scheme)
 	v.User = nil
 	return v.String()
+}
+
+// genURLPager builds numbered pagers whose link URLs and page URL are assembled from a tiny segment
+// alphabet, so that self-similar paths, repeated segments, numbers at several positions and page
+// URLs that only partly match the link pattern arise (aimed at the index arithmetic of the URL
+// pattern code).
+func genURLPager(t *rapid.T) pagerPage {
+	// each case uses its own alphabet of 1-3 segments, so that self-similar URLs are common
+	full := []string{"a", "b", "1", "2", "12", "a-1", "p2", "x.html", "page", "a.htm", "2012", "07"}
+	alpha := []string{full[rapid.IntRange(0, len(full)-1).Draw(t, "alpha0")]}
+	for i := rapid.IntRange(0, 2).Draw(t, "alphasize"); i > 0; i-- {
+		alpha = append(alpha, full[rapid.IntRange(0, len(full)-1).Draw(t, "alphaN")])
+	}
+	seg := func(label string) string {
+		return alpha[rapid.IntRange(0, len(alpha)-1).Draw(t, label)]
+	}
+	host := rapid.SampledFrom([]string{"example.com", "a.com", "1.example.com"}).Draw(t, "uhost")
+	base := rapid.SampledFrom([]string{"http://", "https://"}).Draw(t, "uscheme") + host
+	nseg := rapid.IntRange(1, 6).Draw(t, "nseg")
+	slot := rapid.IntRange(0, nseg-1).Draw(t, "slot")
+	slotForm := rapid.SampledFrom([]string{"N", "N", "a-N", "N.html", "pN", "page-N.htm", "N-a", "a_N_b"}).Draw(t, "slotform")
+	segs := make([]string, nseg)
+	for i := range segs {
+		segs[i] = seg("seg")
+	}
+	query := rapid.SampledFrom([]string{"", "", "?x=1", "?page=N", "?p=N&x=2", "?a=1&page=N&b=2"}).Draw(t, "uquery")
+	trailing := rapid.SampledFrom([]string{"", "", "/"}).Draw(t, "utrail")
+	coef := rapid.SampledFrom([]int{1, 1, 1, 10, 2}).Draw(t, "coef")
+	delta := rapid.SampledFrom([]int{0, 0, -1, 1}).Draw(t, "delta")
+	link := func(k int) string {
+		v := strconv.Itoa(max(0, coef*k+delta))
+		p := ""
+		for i, s := range segs {
+			if i == slot {
+				s = strings.ReplaceAll(slotForm, "N", v)
+			}
+			p += "/" + s
+		}
+		return base + p + trailing + strings.ReplaceAll(query, "N", v)
+	}
+	n := rapid.IntRange(2, 6).Draw(t, "un")
+	k := rapid.IntRange(1, n).Draw(t, "uk")
+	var b strings.Builder
+	b.WriteString("<html><head><title>x</title></head><body><p>" + strings.Repeat("word ", 25) + "</p><div>")
+	for i := 1; i <= n; i++ {
+		if i == k && rapid.IntRange(0, 3).Draw(t, "curlink") > 0 {
+			b.WriteString(" " + strconv.Itoa(i) + " ")
+			continue
+		}
+		b.WriteString(` <a href="` + htmlEsc(link(i)) + `">` + strconv.Itoa(i) + `</a> `)
+	}
+	b.WriteString("</div></body></html>")
+	var pageURL string
+	switch rapid.IntRange(0, 5).Draw(t, "upage") {
+	case 0, 1:
+		pageURL = link(k)
+	case 2: // the pattern with the number segment dropped
+		p := ""
+		for i, s := range segs {
+			if i != slot {
+				p += "/" + s
+			}
+		}
+		pageURL = base + p
+	case 3: // a prefix of the link path
+		p := ""
+		for i := 0; i < rapid.IntRange(0, nseg).Draw(t, "uprefix"); i++ {
+			p += "/" + segs[i]
+		}
+		pageURL = base + p + trailing
+	case 4: // an unrelated path from the same alphabet
+		p := ""
+		for i := 0; i < rapid.IntRange(1, 6).Draw(t, "ulen"); i++ {
+			p += "/" + seg("useg")
+		}
+		pageURL = base + p
+	default: // the link path with the number segment replaced by a word
+		p := ""
+		for i, s := range segs {
+			if i == slot {
+				s = seg("urepl")
+			}
+			p += "/" + s
+		}
+		pageURL = base + p + trailing
+	}
+	return pagerPage{HTML: b.String(), PageURL: pageURL, Kinds: map[string]bool{"url-structure": true}}
 }
